@@ -34,7 +34,7 @@ let pr_pair = function
   | Some (gz, gzr) -> "1 " ^ pr_trap gz ^ " " ^ pr_trap gzr
 
 (* rf.shaped gauss sys pi w flip delay duration dwell center freq phase bandwidth tbw return_gz thick mg ms use *)
-let cmd_shaped r =
+let cmd_shaped_gen direct r =
   let gauss = rd_bool r in
   let s = rd_sys r in
   let pi = rd_q r in
@@ -44,7 +44,9 @@ let cmd_shaped r =
   let rgz = rd_bool r in
   let thick = rd_q r in let mg = rd_q r in let ms = rd_q r in
   let use = rd_nat r in
-  let f = if gauss then make_gauss else make_sinc in
+  (* fast forms (proved equal to the specification forms: C13_fast_form_shaped); [direct] runs the specification *)
+  let f = if direct then (if gauss then make_gauss else make_sinc)
+          else (if gauss then make_gauss_fast else make_sinc_fast) in
   match f s pi w flip delay duration dwell center freq phase bw tbw rgz thick mg ms use with
   | Err e -> "ERR " ^ err_name e
   | Ok (x, g) -> "OK " ^ pr_rf x ^ " " ^ pr_pair g
@@ -62,7 +64,7 @@ let cmd_block r =
   | Ok x -> "OK " ^ pr_rf x
 
 (* rf.arb sys pi w flip bandwidth delay dwell freq phase noscale mg ms return_gz thick tbw use *)
-let cmd_arb r =
+let cmd_arb_gen direct r =
   let s = rd_sys r in
   let pi = rd_q r in
   let w = rd_list rd_q r in
@@ -73,7 +75,7 @@ let cmd_arb r =
   let rgz = rd_bool r in
   let thick = rd_q r in let tbw = rd_q r in
   let use = rd_nat r in
-  match make_arbitrary s pi w flip bw delay dwell freq phase noscale mg ms rgz thick tbw use with
+  match (if direct then make_arbitrary else make_arbitrary_fast) s pi w flip bw delay dwell freq phase noscale mg ms rgz thick tbw use with
   | Err e -> "ERR " ^ err_name e
   | Ok (x, None) -> "OK " ^ pr_rf x ^ " 0"
   | Ok (x, Some gz) -> "OK " ^ pr_rf x ^ " 1 " ^ pr_trap gz
@@ -92,7 +94,9 @@ let cmd_adia r =
   | Ok (x, g) -> "OK " ^ pr_rf x ^ " " ^ pr_pair g
 
 let () =
-  Driver.register "rf.shaped" cmd_shaped;
+  Driver.register "rf.shaped" (cmd_shaped_gen false);
+  Driver.register "rf.shaped_direct" (cmd_shaped_gen true);
+  Driver.register "rf.arb_direct" (cmd_arb_gen true);
   Driver.register "rf.block" cmd_block;
-  Driver.register "rf.arb" cmd_arb;
+  Driver.register "rf.arb" (cmd_arb_gen false);
   Driver.register "rf.adia" cmd_adia
